@@ -798,6 +798,23 @@ def bypassed_overrides(program, fn, ref_fn, is_reviewed):
     dropped, added = before - now, now - before
     if not dropped or not added:
         return out
+    # what the function still reaches through the methods it newly calls (two levels): a call moved into a helper is not dropped
+    via_new = set()
+    frontier = set(added)
+    for _hop in range(3):
+        nxt = set()
+        for c_ in program.classes.values():
+            for nm_ in frontier & set(c_.methods):
+                calls_ = _method_calls(c_.methods[nm_].node)
+                via_new |= calls_
+                nxt |= calls_
+        for f_ in program.functions.values():
+            if getattr(f_, "name", None) in frontier and f_.cls is None and isinstance(f_.node, (ast.FunctionDef, ast.AsyncFunctionDef)):
+                via_new |= _method_calls(f_.node)
+        frontier = nxt - via_new if _hop else nxt
+    dropped = dropped - via_new
+    if not dropped:
+        return out
     recv = lambda f_, name: {ast.unparse(n.func.value) for n in ast.walk(f_) if isinstance(n, ast.Call) and isinstance(n.func, ast.Attribute) and n.func.attr == name}
     for c in program.classes.values():
         for N in sorted(added & set(c.methods)):
